@@ -4,7 +4,8 @@
 (* lead to the absorbing state dead (their outcome is not specified, so nothing can follow in the   *)
 (* model; in the replay the next line is a Reset).                                                  *)
 EXTENDS FixedString, TLC, Json
-CONSTANTS Char,        \* character codes used for contents and sources
+CONSTANTS Chars0,      \* character codes (without NUL) used for contents and sources
+          NulUpTo,     \* for capacities <= NulUpTo the alphabet also contains NUL (0)
           WildArgs,      \* TRUE: also generate calls outside the documented domain (C10)
           BigCodes,    \* k in BigCodes: the size_t value with code -k (>= 2^31; 1 = SIZE_MAX = npos, 2 = SIZE_MAX - 1, ...)
                        \* is used as position / count (cfg files cannot hold negative numbers)
@@ -13,12 +14,16 @@ VARIABLES act, dead
 mcvars == <<vars, act, dead>>
 
 BigVals == {0 - k : k \in BigCodes}
+Char == IF L <= NulUpTo THEN Chars0 \cup {0} ELSE Chars0
 Strs(n) == UNION {[1..k -> Char] : k \in 0..n}
-C1 == SetMin(Char)
-C2 == SetMax(Char)
+WithNul == L <= NulUpTo
+C1 == SetMin(Chars0)
+C2 == SetMax(Chars0)
 Pat(k) == [i \in 1..k |-> IF i % 2 = 1 THEN C2 ELSE C1]
-Wholes(maxlen) == {x \in Strs(WholeLen) \cup {Pat(k) : k \in 3..(L + 2)} : Len(x) <= maxlen}
-PartSrcs == IF WildArgs THEN {<<>>, <<C2, C1>>, Pat(L + 1)} ELSE {<<>>, <<C1>>, <<C1, C2>>, Pat(L + 1)}
+Pats(k) == {Pat(k)} \cup (IF WithNul THEN {[Pat(k) EXCEPT ![2] = 0]} ELSE {})        \* one long text, and one with a NUL inside
+Wholes(maxlen) == {x \in Strs(WholeLen) \cup UNION {Pats(k) : k \in 3..(L + 2)} : Len(x) <= maxlen}
+PartSrcs == (IF WildArgs THEN {<<>>, <<C2, C1>>, Pat(L + 1)} ELSE {<<>>, <<C1>>, <<C1, C2>>, Pat(L + 1)})
+            \cup (IF WithNul THEN {<<0, C2>>} ELSE {})
 Pos1 == IF WildArgs THEN (0..(L + 1)) \cup BigVals ELSE 0..Len(s)           \* positions in this string
 Cnt1 == IF WildArgs THEN {0, 1, L + 1} \cup BigVals ELSE {0, 1, 2, L + 1, NPos}   \* counts in this string
 Cnt1Small == {0, 1} \cup BigVals \cup {NPos}
@@ -34,9 +39,10 @@ Ranges(sk, x) == UNION {{<<sk, x, p, c, 0>> : c \in 0..(Len(x) - p)} : p \in 0..
 SrcOf(sk) ==
    CASE sk = "cnt_ch"   -> {<<sk, <<>>, 0, c, ch>> : c \in RepCnt, ch \in Char}
      [] sk = "ch"       -> {<<sk, <<>>, 0, 0, ch>> : ch \in Char}
-     [] sk \in {"cstr", "str", "fs2", "ilist"} -> {<<sk, x, 0, NPos, 0>> : x \in Wholes(L + 2)}
+     [] sk = "cstr" -> {<<sk, x, 0, NPos, 0>> : x \in {y \in Wholes(L + 2) : WildArgs \/ NoNul(y)}}
+     [] sk \in {"str", "fs2", "ilist"} -> {<<sk, x, 0, NPos, 0>> : x \in Wholes(L + 2)}
      [] sk \in {"fs", "fs_move"} -> {<<sk, x, 0, NPos, 0>> : x \in Wholes(L)}
-     [] sk = "cstr_cnt" -> UNION {{<<sk, x, 0, c, 0>> : c \in 0..Len(x)} : x \in Wholes(L + 2)}
+     [] sk = "cstr_cnt" -> UNION {{<<sk, x, 0, c, 0>> : c \in 0..Len(x)} : x \in {y \in Wholes(L + 2) : WildArgs \/ NoNul(y)}}
      [] sk \in {"str_pos_cnt", "fs2_pos_cnt"} -> UNION {{<<sk, x, p, c, 0>> : p \in Pos2(x), c \in Cnt2} : x \in PartSrcs}
      [] sk = "fs_pos_cnt" -> UNION {{<<sk, x, p, c, 0>> : p \in Pos2(x), c \in Cnt2} : x \in {y \in PartSrcs : Len(y) <= L}}
      [] sk \in {"str_pos", "fs2_pos"} -> UNION {{<<sk, x, p, NPos, 0>> : p \in Pos2(x)} : x \in PartSrcs}
@@ -130,8 +136,9 @@ EdgeOut == PrintT("EDGE " \o ToJson([i |-> (act.op = "Init"), pre |-> St(L, s, d
                                      a |-> act' @@ [L |-> L, dom |-> ~dead'], post |-> St(L', s', dead')]))
 
 \* ---- the two formulations checked against each other (evaluated once, over all small texts) ----
-T3 == UNION {[1..k -> Char] : k \in 0..3}
-T2 == UNION {[1..k -> Char] : k \in 1..2}
+TChar == Chars0 \cup {0}
+T3 == UNION {[1..k -> TChar] : k \in 0..3}
+T2 == UNION {[1..k -> TChar] : k \in 1..2}
 RECURSIVE ScanFind(_, _, _)
 ScanFind(x, n, i) == IF i + Len(n) > Len(x) THEN NPos ELSE IF MatchAt(x, n, i) THEN i ELSE ScanFind(x, n, i + 1)
 RECURSIVE ScanRFind(_, _, _)
